@@ -71,6 +71,8 @@ def n_defects(bounds, prec):
     n += len(prec) != len(lo)
     for i in range(min(len(lo), len(hi), len(prec))):
         l, h, p = lo[i], hi[i], prec[i]
+        if isinstance(p, list):     # a nested precision row: already counted as a wrong length
+            continue
         n += (l == h) + (l > h) + (p == 0) + (l < h and p > h - l)
     return n
 
@@ -84,6 +86,11 @@ def check_spec(ctx: Ctx, case):
 
     sub = case.get("sub", "spec")
     bounds, prec, as_array = case["bounds"], case["precision"], case.get("as_array", False)
+    if any(isinstance(v, list) for v in prec) and len(bounds) == 2 and len(bounds[0]) == len(bounds[1]) == len(prec):
+        # a precision *element* that is itself a list, in an argument of the right length: not a specification the
+        # statement classifies
+        ctx.exclude("a precision element is a list although the lengths match (unclassified)")
+        return
     exp = expected(bounds, prec)
     nd = n_defects(bounds, prec)
     nonmult = False
@@ -193,7 +200,8 @@ def lattice_specs(values, pvals, m, full_k2=True):
 
 
 def rectangular(bounds, prec):
-    return len(bounds) > 0 and len({len(b) for b in bounds}) == 1 and len(bounds[0]) > 0 and len(prec) > 0
+    flat_or_one_row = all(not isinstance(v, list) for v in prec) or len(prec) == 1
+    return len(bounds) > 0 and len({len(b) for b in bounds}) == 1 and len(bounds[0]) > 0 and len(prec) > 0 and flat_or_one_row
 
 
 # ---------------------------------------------------------------------------------------------------------------------
@@ -289,11 +297,11 @@ def random_specs(draw):
     bounds = [[a for a, _, _ in ps], [b for _, b, _ in ps]]
     prec = [c for _, _, c in ps]
     defect = draw(st.sampled_from(["none", "none", "none", "equal", "inverted", "zero", "toolarge", "preclen", "boundlen",
-                                    "two", "three"]))
+                                    "two", "three", "precnested"]))
     n = {"none": 0, "two": 2, "three": 3}.get(defect, 1)
     kinds = [defect] if n == 1 else [draw(st.sampled_from(["equal", "inverted", "zero", "toolarge", "preclen", "boundlen",
-                                                            "notsize2"])) for _ in range(n)]
-    order = {"preclen": 1, "boundlen": 1, "notsize2": 2}
+                                                            "notsize2", "precnested"])) for _ in range(n)]
+    order = {"preclen": 1, "boundlen": 1, "notsize2": 2, "precnested": 1}
     for kd in sorted(kinds, key=lambda k: order.get(k, 0)):  # value defects first, structural ones last
         i = draw(st.integers(0, d - 1))
         if kd == "equal":
@@ -304,6 +312,9 @@ def random_specs(draw):
             prec[i] = 0.0
         elif kd == "toolarge":
             prec[i] = abs(bounds[1][i] - bounds[0][i]) * draw(st.sampled_from([1.0000001, 2.0, 1e6]))
+        elif kd == "precnested":
+            if len(prec) >= 2 and all(not isinstance(v, list) for v in prec):
+                prec = [list(prec)]      # a 1 x N row (np.atleast_2d, a copied matrix row): N elements but length 1
         elif kd == "preclen":
             prec = prec + [0.1] if draw(st.booleans()) else prec[:-1]
         elif kd == "boundlen":
@@ -314,7 +325,7 @@ def random_specs(draw):
     if draw(st.integers(0, 7)) == 0:
         # plain Python integers where the numbers are integral (users write [[0, 10]], [1])
         bounds = [[int(v) if float(v).is_integer() and abs(v) < 1e15 else v for v in b] for b in bounds]
-        prec = [int(v) if float(v).is_integer() and abs(v) < 1e15 else v for v in prec]
+        prec = [int(v) if not isinstance(v, list) and float(v).is_integer() and abs(v) < 1e15 else v for v in prec]
     return {"sub": "random", "bounds": bounds, "precision": prec, "as_array": as_array, "verbose": draw(st.booleans())}
 
 
